@@ -59,7 +59,7 @@ func H_C01_asm_names() {
 	rt, _ := sharedCache.ListedPackages.get("runtime")
 	name := asciiIdent("name", 1+symx.Choose(tier(1, 2)))
 	var in, want string
-	switch symx.Choose(7) {
+	switch symx.Choose(10) {
 	case 0: // unqualified definition
 		in = "TEXT ·" + name + "(SB),$0-24"
 		want = "TEXT ·" + obfName(cur, name) + "(SB),$0-24"
@@ -82,6 +82,18 @@ func H_C01_asm_names() {
 			symx.Assume(in[i] < 0x80)
 		}
 		want = in
+	case 7: // a reference into another package followed by an unqualified one
+		name2 := asciiIdent("name2", 1)
+		in = "CALL example·com∕dep·" + name + "(SB); JMP ·" + name2 + "(SB)"
+		want = "CALL " + obfPath(dep, "example·com∕dep") + "·" + obfName(dep, name) + "(SB); JMP ·" + obfName(cur, name2) + "(SB)"
+	case 8: // several lines: unqualified, runtime, unqualified
+		name2 := asciiIdent("name2", 1)
+		in = "TEXT ·" + name + "(SB)\n\tCALL runtime·" + name2 + "(SB)\n\tJMP ·" + name2 + "(SB)\n"
+		want = "TEXT ·" + obfName(cur, name) + "(SB)\n\tCALL " + obfPath(rt, "runtime") + "·" + obfName(rt, name2) + "(SB)\n\tJMP ·" + obfName(cur, name2) + "(SB)\n"
+	case 9: // current package by name, then the dependency
+		name2 := asciiIdent("name2", 1)
+		in = "MOVQ cur·" + name + "(SB), AX; MOVQ example·com∕dep·" + name2 + "(SB), BX"
+		want = "MOVQ " + obfPath(cur, "cur") + "·" + obfName(cur, name) + "(SB), AX; MOVQ " + obfPath(dep, "example·com∕dep") + "·" + obfName(dep, name2) + "(SB), BX"
 	case 6: // a reference at the very end of the input, preceded by punctuation
 		in = "DATA x+0(SB)/8,$·" + name
 		want = "DATA x+0(SB)/8,$·" + obfName(cur, name)
